@@ -122,6 +122,10 @@ class Worker:
         env.update(GODEBUG='asyncpreemptoff=1', SIM_OUT=self.out, SIM_CAPTURE=self.cap)
         env.update(self.env_extra)
         env.update(extra)
+        try:
+            self.proc_start = int(str(env.get('SIM_SEEDS', '')).split(':')[0])
+        except ValueError:
+            self.proc_start = None
         self.proc = subprocess.Popen([self.build.bin, '-test.run', 'TestSim', '-test.timeout', '0'], env=env,
                                      stdout=subprocess.DEVNULL, stderr=subprocess.DEVNULL, cwd=self.build.dir)
         self.last_progress = time.time()
@@ -192,6 +196,7 @@ def run_seeds(build, scenario, start, count, nproc=NPROC, env_extra=None, stall_
             new = w.read_new()
             for r in new:
                 w.account(r)
+                r['_proc_start'] = w.proc_start
                 results.append(r)
                 if on_result:
                     on_result(r)
@@ -199,6 +204,7 @@ def run_seeds(build, scenario, start, count, nproc=NPROC, env_extra=None, stall_
             if rc is not None:
                 for r in w.read_new():
                     w.account(r)
+                    r['_proc_start'] = w.proc_start
                     results.append(r)
                 if rc == 3 and w.remaining > 0:
                     extra = {'SIM_SEEDS': f'{w.next_seed}:{w.remaining}'}  # dirty run: fresh process for the rest
@@ -311,6 +317,37 @@ def match_known(known, prop, viol):
     return None
 
 
+def run_segment(build, scenario, first, seed, env):
+    """Runs seeds first..seed in ONE process (as the batch did) and returns the result for seed."""
+    e = dict(env)
+    e.update({'SIM_SCENARIO': scenario, 'SIM_SEEDS': f'{first}:{seed - first + 1}'})
+    rc, out = single(build, e, timeout=1800)
+    for x in out:
+        if x.get('seed') == seed:
+            return x
+    return None
+
+
+def confirm_in_context(build, prop, scenario, res, viol, env):
+    """Fallback for a violation that does not replay alone in a fresh process: re-run the seeds the
+    worker process had executed before it, in one process. If the violation comes back the result
+    depends on process history the simulator failed to neutralise (DESIGN.md 13); it is still a
+    violation of the code under test, reported with a replay file that names the whole segment."""
+    first = res.get('_proc_start')
+    if first is None or first >= res['seed'] or env.get('SIM_ENUM'):
+        return None
+    x = run_segment(build, scenario, first, res['seed'], env)
+    if not x or not any(v['kind'] == viol['kind'] and v['prop'] in (prop, '*') for v in (x.get('violations') or [])):
+        return None
+    path = os.path.join(VERIF, 'replays', f'{prop}-{res["seed"]}-{viol["kind"]}.json')
+    rf = {'property': prop, 'kind': viol['kind'], 'message': viol['msg'], 'seed': res['seed'], 'scenario': scenario,
+          'segment': [first, res['seed'] - first + 1], 'env': {k: v for k, v in env.items() if k.startswith('SIM_')},
+          'minimised': False, 'repo_tree': repo_tree_hash(),
+          'note': 'reproduces only after the preceding seeds of the segment have run in the same process'}
+    json.dump(rf, open(path, 'w'), indent=1)
+    return path
+
+
 def shrink_and_confirm(build, prop, scenario, res, viol, budget_s=90):
     """Writes the replay file for a violation, minimises it, and confirms it replays."""
     os.makedirs(os.path.join(VERIF, 'replays'), exist_ok=True)
@@ -391,6 +428,7 @@ def _check(prop, tier, spec, base_seed, build, t0, runs_override):
     plan = spec[tier] if tier in spec else spec['quick']
     wall_cap = spec.get('wall_cap', {}).get(tier, 600 if tier == 'quick' else 3600)
     per_scenario = {}
+    scen_env = {}
     for si, entry in enumerate(plan):
         scenario, count = entry[0], entry[1]
         if runs_override:
@@ -400,6 +438,7 @@ def _check(prop, tier, spec, base_seed, build, t0, runs_override):
         env_extra.update(spec.get('env', {}))
         if len(entry) > 2:
             env_extra.update(entry[2])
+        scen_env[scenario] = dict(env_extra)
         remaining_cap = max(30, wall_cap - (time.time() - t0))
         results, problem = run_seeds(build, scenario, start, count, env_extra=env_extra, wall_cap=remaining_cap)
         if problem:
@@ -472,6 +511,11 @@ def _check(prop, tier, spec, base_seed, build, t0, runs_override):
             continue
         path, ok, why = shrink_and_confirm(build, prop, s, r, v, budget_s=spec.get('shrink_s', 90))
         if not ok:
+            seg = confirm_in_context(build, prop, s, r, v, scen_env.get(s, {}))
+            if seg:
+                reported.append((kind, seg, v, len(lst)))
+                status = 1
+                continue
             print(f'INCONCLUSIVE non-reproducible seed={r["seed"]} property={prop} kind={kind}: {why}')
             problems.append(f'non-reproducible violation {prop}/{kind} seed {r["seed"]}')
             continue
@@ -575,6 +619,15 @@ def replay(prop, path):
     rf = json.load(open(path))
     build = Build()
     try:
+        if rf.get('segment'):
+            x = run_segment(build, rf['scenario'], rf['segment'][0], rf['seed'], rf.get('env') or {})
+            hit = [v for v in ((x or {}).get('violations') or []) if v['prop'] in (rf['property'], '*') and v['kind'] == rf['kind']]
+            if hit:
+                print(f'{rf["property"]}/{rf["kind"]}: {hit[0]["msg"]}')
+                print(f'VIOLATION property={rf["property"]} replay={path}')
+                return 1
+            print(f'NOT REPRODUCED: {path} (segment replay)')
+            return 2 if repo_tree_hash() == rf.get('repo_tree') else 0
         rc, out = single(build, {'SIM_SCENARIO': rf['scenario'], 'SIM_REPLAY': os.path.abspath(path)})
         rep = [r for r in out if 'seed' in r]
         if not rep and rf.get('crash') and rc not in (0, 3):
